@@ -55,8 +55,14 @@ def euclid_hist(reference_hist, test_hist):
 
 DIVS = {"H": "H", "KL": "KL", "custom": euclid_hist}
 
+# user functions that read the histograms as what they are documented to be (frequency counts per bin, in bin
+# order): not invariant under rescaling a histogram, unbounded (filled in by the round-3 section below)
+COUNT_FNS = set()
+
 
 def _bound(divname):
+    if divname in COUNT_FNS:
+        return math.inf  # the property bounds Hellinger and Jensen-Shannon only
     b = bound_of(DIVS[divname])
     return SQRT2 if b is None else b  # euclid of two probability vectors <= sqrt(2)
 
@@ -416,6 +422,8 @@ class HDMSystem(System):
                     raise Violation("%s-bound" % self.name, "per-feature distance %r outside [0, bound]" % v,
                                     expected=[0, _bound(divname)], observed=v)
         ik = _identity_kind(ref_before, X)
+        if ik == "proportional" and divname in COUNT_FNS:
+            ik = None  # a function of the raw counts need not vanish when every count is doubled
         if ik is not None:
             ctx.count("identity_checks" if ik == "same" else "identity_checks_" + ik)
             if not (abs(d) <= 1e-12):
@@ -525,6 +533,38 @@ def asym_hist(reference_hist, test_hist):
 
 DIVS["asym"] = asym_hist
 
+
+# User functions that use the histograms as documented ("list of frequency count of data in each bin", the
+# library's own example computes a Euclidean distance of the count vectors).  All three are metrics on count
+# vectors (norms of the difference, resp. of an injective linear image of it); none is invariant under
+# rescaling one histogram, the third depends on the order of the bins as well.
+def euclid_counts(reference_hist, test_hist):
+    r = np.asarray(reference_hist, dtype=float)
+    t = np.asarray(test_hist, dtype=float)
+    return float(np.sqrt(np.sum((r - t) ** 2)))
+
+
+def l1_counts(reference_hist, test_hist):
+    """number of samples in excess / missing per bin; returns a numpy scalar (an integer for integer counts)"""
+    return np.sum(np.abs(np.asarray(reference_hist) - np.asarray(test_hist)))
+
+
+def cum_counts(reference_hist, test_hist):
+    """L1 distance of the cumulative counts (earth mover's distance in units of samples x bins)"""
+    r = np.cumsum(np.asarray(reference_hist, dtype=float))
+    t = np.cumsum(np.asarray(test_hist, dtype=float))
+    return float(np.sum(np.abs(r - t))) / 4.0
+
+
+DIVS.update({"ecount": euclid_counts, "l1count": l1_counts, "cumcount": cum_counts})
+COUNT_FNS.update({"ecount", "l1count", "cumcount"})
+
+# documented defaults of the constructors (class docstrings: "Defaults to ...")
+DOC_DEFAULTS = {
+    "HDDDM": {"detect_batch": 1, "divergence": "H", "statistic": "tstat", "significance": 0.05, "subsets": 5},
+    "CDBD": {"detect_batch": 1, "divergence": "KL", "statistic": "tstat", "significance": 0.05, "subsets": 5},
+}
+
 DF_LABELS = {1: [7], 2: [1, 0], 3: [2, 0, 1]}  # integer labels that are *not* the positions
 
 
@@ -583,6 +623,10 @@ def _lds(n, off, F, scale=(3.0, 2.0, 1.0), shift=(0.0, 0.0, 0.0), widen=(1.0, 1.
     return np.array(rows)
 
 
+SCALES = {"level": (2.0 ** -6, 2.0 ** 20), "tiny": (2.0 ** -20, 0.0),
+          "nano": (2.0 ** -30, 0.0), "negbig": (-(2.0 ** 27), -(2.0 ** 27))}
+
+
 def _build_fams():
     F = {}
     lo4, lo9, sh4, sh9, wd4, wd9 = MENU2
@@ -631,7 +675,9 @@ def _build_fams():
         _spec("lo9", c), _spec("const9", [1.0] * 9, const=1),
     ]
     # ---- scales: level 2^20 (~1e6) with spread ~0.05, and scale 2^-20 (~1e-6)
-    for key, (mul, add) in {"level": (2.0 ** -6, 2.0 ** 20), "tiny": (2.0 ** -20, 0.0)}.items():
+    #      round 3b: scale 2^-30 (~1e-9: the whole range lies below the absolute tolerance of numpy.isclose /
+    #      allclose) and large negative values (-2^27 (x + 1), ~1e8: every value negative but a few of the widened batch)
+    for key, (mul, add) in SCALES.items():
         F[key + "2"] = [_spec("%s:%s" % (n, key), m * mul + add) for n, m in
                         zip(("lo4", "lo9", "shift4", "wide9"), (lo4, lo9, sh4, wd9))]
         F[key + "1"] = [_with(x, a=x["a"][:, :1].copy()) for x in F[key + "2"]]
@@ -652,6 +698,24 @@ def _build_fams():
         r = _lds(n, 3 * n, 2, scale=(3.0, 2.0, 1.0))
         F["ident%d" % n] = [_spec("ref%d" % n, r), _spec("perm%d" % n, r[::-1][np.r_[5:n, 0:5]]),
                             _spec("dup%d" % (2 * n), np.repeat(r, 2, axis=0))]
+    # ---- long histories: 6..12-row batches of one low-discrepancy stream (stationary), two shifted levels, a
+    #      widened and a narrowed batch; the default histories over this menu are in LONG_DEFAULTS
+    lg = [("ref12", _lds(12, 0, 2))]
+    off = 12
+    for i, n in enumerate([8, 11, 6, 9, 12, 7, 10, 8]):
+        lg.append(("st%d_%d" % (n, i), _lds(n, off, 2)))
+        off += n
+    for i, n in enumerate([9, 7, 10]):
+        lg.append(("A%d_%d" % (n, i), _lds(n, off, 2, shift=(1.25, 0.25, 0))))
+        off += n
+    for i, n in enumerate([8, 10, 6]):
+        lg.append(("B%d_%d" % (n, i), _lds(n, off, 2, shift=(1.25, 2.5, 0))))
+        off += n
+    lg.append(("W9", _lds(9, off, 2, widen=(1.0, 2.5, 1))))
+    off += 9
+    lg.append(("N7", _lds(7, off, 2, widen=(0.25, 1.0, 1))))
+    F["long2"] = [_spec(n, a) for n, a in lg]
+    F["long1"] = [_with(x, a=x["a"][:, :1].copy()) for x in F["long2"]]
     # ---- the original menu (parameter families use it unchanged)
     F["menu2"] = [_spec(n, m) for n, m in zip(NAMES, MENU2)]
     F["menu1"] = [_spec(n, m) for n, m in zip(NAMES, MENU1)]
@@ -664,11 +728,29 @@ def _build_fams():
 FAMS = _build_fams()
 
 
+def divname_is_count(name):
+    return name in COUNT_FNS
+
+
 class HDMFamSystem(HDMSystem):
     """Same driver and oracle as HDMSystem; batches come from the menu named by cfg["fam"]."""
 
     def _wrap(self, cfg, arr):  # role-swapped twin: plain float64 arrays
         return np.array(arr, dtype=float)
+
+    def init(self, cfg):
+        """cfg["ctor"] (round 3b, family "defaults") lists the keyword arguments actually passed to the
+        constructor; the others must take their documented defaults, which is what cfg["params"] (the
+        specification's parameters) holds for them."""
+        given = cfg.get("ctor")
+        if given is None:
+            return super().init(cfg)
+        kw = self._params(cfg)
+        doc = DOC_DEFAULTS[self.det_cls.__name__]
+        for k, v in cfg["params"].items():
+            assert k in given or doc[k] == v, (k, v)
+        det = self.det_cls(**{k: kw[k] for k in given})
+        return {"det": det, "model": HDMModel(**kw), "nsetref": 0, "ready": False}
 
     def _data(self, cfg, bi):
         return FAMS[cfg["fam"]][bi]["a"]
@@ -720,6 +802,27 @@ class HDMFamSystem(HDMSystem):
             ctx.count("bootstrap_with_more_subsets_than_reference_rows")
         if "_e0" in exp and p["subsets"] == 2:
             ctx.count("bootstrap_with_2_subsets")
+        if tag == "defaults":
+            ctx.count("defaults:%s(%s)" % (self.det_cls.__name__, ",".join(cfg["ctor"])))
+        if divname_is_count(p["divergence"]):
+            # would the same function on the normalised histograms have given another distance?
+            fd = exp["_fd"]
+            ctx.count("count_function_steps")
+            if any(v > 1.5 for v in fd):
+                ctx.count("count_function_distance_above_any_normalised_bound")
+            if p["divergence"] == "l1count":
+                ctx.count("count_function_returning_numpy_integer")
+        s3 = "_detect_batch3" if p["detect_batch"] == 3 else "_detect_batch1or2"
+        if not drift and model.since >= 12:
+            ctx.count("epoch_of_ge12_batches" + s3)
+        if "_sd" in exp and len(model.eps) >= 11:
+            ctx.count("threshold_from_ge10_epsilons" + s3)
+        if drift and model.drifts >= 4:
+            ctx.count("fourth_or_later_drift_of_a_history" + s3)
+        if drift and model.epochs >= 2 and model.since == max(2, p["detect_batch"]):
+            ctx.count("drift_at_first_opportunity_of_a_later_epoch" + s3)
+        if drift and model0.state == "drift" and p["detect_batch"] == 1:
+            ctx.count("drift_reported_on_two_consecutive_calls")
         if cfg.get("asym"):
             m = model
             bins = exp["_bins"]
@@ -920,13 +1023,13 @@ def _round3(tier, seed):
     out.append(_fdfs("F-HDDDM3", cfg, 1, "2^1"))
     # ---- scales
     n = 0
-    for key in ("level", "tiny"):
+    for key in SCALES:
         for db, stat, div in [(1, ("stdev", 0.5), "H"), (2, ("tstat", 0.5), "custom"), (3, ("stdev", 0.5), "KL")]:
             cfg = _fcfg("%s2-%d" % (key, db), "scale-" + key, key + "2", _P(db, stat[0], stat[1], div), n % 2,
                         [0, 1, 2, 3])
             out.append(_fdfs("F-HDDDM2", cfg, 4 + deep, "4^%d" % (4 + deep)))
             n += 1
-        db = 3 if key == "level" else 2
+        db = {"level": 3, "tiny": 2, "nano": 1, "negbig": 3}[key]
         cfg = _fcfg("%s1" % key, "scale-" + key, key + "1", _P(db, "tstat", 0.5, "KL"), 1, [0, 1, 2, 3])
         out.append(_fdfs("F-CDBD", cfg, 4 + deep, "4^%d" % (4 + deep)))
     # ---- larger batches, deviation-bounded
@@ -981,10 +1084,88 @@ def _round3(tier, seed):
         t = {"system": "Multi", "cfg": cfg, "mode": "dev", "default": default, "menu": allev, "k": 1 + deep,
              "label": "Multi|%s|fam=multi|round-robin 15 calls, <=%d deviations (other detector / other batch)"
              % (cfg["id"], 1 + deep), "cost": 3000, "validate_every": 23}
-        out.append(t)
+        if deep:
+            # same histories, split by the first deviation: one task of half an hour becomes 166 small ones
+            from mc.explorer import dev_split
+
+            out += dev_split(t)
+        else:
+            out.append(t)
         out.append({"system": "Multi", "cfg": cfg, "prefix": default[:9], "depth": 3 + deep,
                     "label": "Multi|%s|fam=multi|9 round-robin calls + (3 detectors x 2 batches)^%d" % (cfg["id"], 3 + deep),
                     "cost": 6 ** (3 + deep) * 3, "validate_every": 23})
+    return out
+
+
+# --------------------------------------------------------------------------- round-3b tasks
+# Default histories of 24 updates over FAMS["long2"/"long1"] (indices; 0 = the initial reference), found by a
+# model-only search for the detect_batch=3 configuration named first: a calm epoch of 13 batches that ends in a
+# drift, two drifts at the first opportunity of their epochs, a fourth drift after a longer epoch, one batch
+# more.  The counters demanded in REQUIRED prove that the detector really walks through that shape.
+LONG_DEFAULTS = {
+    "a": [1, 7, 8, 7, 1, 8, 5, 6, 1, 2, 1, 2, 7, 8, 15, 14, 2, 14, 15, 10, 13, 2, 4, 6],
+    "b": [1, 5, 7, 1, 15, 5, 15, 4, 5, 15, 5, 15, 5, 8, 15, 14, 1, 4, 9, 10, 13, 9, 3, 6],
+    "c": [1, 9, 7, 2, 1, 2, 7, 11, 9, 1, 15, 2, 10, 8, 11, 14, 1, 4, 7, 10, 13, 16, 14, 6],
+    "d": [1, 5, 7, 15, 3, 2, 4, 6, 15, 2, 1, 5, 6, 8, 11, 15, 1, 4, 7, 10, 13, 1, 16, 6],
+}
+LONG_CONFIGS = [
+    # (system, menu, default history, parameters)
+    ("F-HDDDM2", "long2", "a", _P(3, "stdev", 2, "H")),
+    ("F-CDBD", "long1", "b", _P(3, "tstat", 0.05, "KL")),
+    ("F-HDDDM2", "long2", "c", _P(3, "stdev", 1, "ecount")),
+    ("F-HDDDM1", "long1", "d", _P(3, "tstat", 0.5, "custom")),
+    ("F-HDDDM2", "long2", "a", _P(2, "stdev", 2, "H")),
+    ("F-CDBD", "long1", "b", _P(1, "tstat", 0.05, "KL")),        # CDBD's default parameters
+    ("F-HDDDM2", "long2", "a", _P(1, "tstat", 0.05, "H")),       # HDDDM's default parameters
+    ("F-HDDDM2", "long2", "c", _P(2, "tstat", 0.5, "l1count", 3)),
+    ("F-CDBD", "long1", "d", _P(1, "stdev", 0.5, "cumcount", 3)),
+]
+LONG_K2_THOROUGH = (0, 1, 5, 6)  # thorough: two deviations for these configurations, one for the others
+LONG_MENU = [["u", 4], ["u", 9], ["u", 12], ["u", 15], ["r", 0]]  # stationary, level A, level B, widened, set_reference
+USERFN_CONFIGS = [
+    ("F-HDDDM2", "menu2", _P(3, "stdev", 0.5, "ecount")), ("F-CDBD", "menu1", _P(3, "tstat", 0.5, "l1count")),
+    ("F-HDDDM2", "menu2", _P(2, "tstat", 0.5, "cumcount")), ("F-HDDDM1", "menu1", _P(1, "stdev", 2, "ecount", 3)),
+    ("F-HDDDM2", "menu2", _P(1, "tstat", 0.05, "l1count")), ("F-CDBD", "menu1", _P(2, "stdev", 0.5, "cumcount", 3)),
+]
+DEFAULTS_CONFIGS = [
+    # (system, menu, keyword arguments given, their values)
+    ("F-HDDDM2", "menu2", {}), ("F-CDBD", "menu1", {}),
+    ("F-HDDDM1", "menu1", {"statistic": "stdev"}), ("F-CDBD", "menu1", {"detect_batch": 3}),
+    ("F-HDDDM2", "menu2", {"subsets": 3, "detect_batch": 2}), ("F-HDDDM2", "menu2", {"divergence": "KL"}),
+    ("F-CDBD", "menu1", {"divergence": "H", "significance": 0.5}), ("F-HDDDM1", "menu1", {"detect_batch": 3, "significance": 0.5}),
+]
+
+
+def _round3b(tier, seed):
+    from mc.explorer import dev_split
+
+    deep = 0 if tier == "quick" else 1
+    out = []
+    # ---- user functions of the raw counts
+    for i, (sysname, fam, params) in enumerate(USERFN_CONFIGS):
+        cfg = _fcfg("userfn-%d" % i, "userfn", fam, params, i % 2, [0, 1, 2, 3, 5])
+        out.append(_fdfs(sysname, cfg, 4 + deep, "5^%d" % (4 + deep)))
+    default = [["u", i] for i in (1, 2, 3, 4, 5, 6)]
+    menu = [["u", i] for i in (7, 8, 9, 10)]
+    for i, (sysname, fam, params) in enumerate([("F-HDDDM2", "large2", _P(3, "stdev", 2, "ecount")),
+                                                ("F-CDBD", "large1", _P(2, "tstat", 0.05, "l1count"))]):
+        cfg = _fcfg("userfn-large-%d" % i, "userfn", fam, params, 0, [])
+        out += _fdev(sysname, cfg, default, menu, 2 + deep, "large batches: 6 default + 4 alternatives, k<=%d" % (2 + deep))
+    # ---- constructor defaults
+    for i, (sysname, fam, given) in enumerate(DEFAULTS_CONFIGS):
+        params = dict(DOC_DEFAULTS[SYSTEMS[sysname].det_cls.__name__])
+        params.update(given)
+        cfg = _fcfg("defaults-%d" % i, "defaults", fam, params, (i // 2) % 2, [0, 1, 2, 3, 5], ctor=sorted(given))
+        out.append(_fdfs(sysname, cfg, 4 + deep, "ctor(%s) 5^%d" % (",".join(sorted(given)), 4 + deep)))
+    # ---- long histories, deviation-bounded
+    for i, (sysname, fam, dk, params) in enumerate(LONG_CONFIGS):
+        cfg = _fcfg("long-%d" % i, "long", fam, params, 0, [])
+        dflt = [["u", b] for b in LONG_DEFAULTS[dk]]
+        k = 2 if (deep and i in LONG_K2_THOROUGH) else 1
+        for t in _fdev(sysname, cfg, dflt, LONG_MENU, k,
+                       "default history %s of 24 updates, 4 other batches / set_reference at <=%d positions" % (dk, k)):
+            t["cost"] = 24 * len(LONG_MENU) * 10  # ~ transitions of the k = 1 exploration / of one part of the split
+            out += dev_split(t) if k == 2 else [t]
     return out
 
 
@@ -1007,7 +1188,7 @@ def tasks(tier, seed):
                 s2 = ROTA[(j // 3 + seed) % 4]
                 out.append(_task(s2, cfg, [_U(1 - cfg["ref0"])], 4, "pre1+setref<=1", 3 * 6 ** 4,
                                  max_setref=1, setref_menu=[0, 3]))
-        return out + _round3(tier, seed)
+        return out + _round3(tier, seed) + _round3b(tier, seed)
     # thorough
     for j, params in enumerate(combos):
         cfg = _cfg(j, params)
@@ -1030,7 +1211,7 @@ def tasks(tier, seed):
             for a in range(6):
                 out.append(_task(s2, cfg, [_U(a)], 4, "pre1+setref<=2/%d" % a, 3 * 6 ** 4,
                                  max_setref=2, setref_menu=[0, 3]))
-    return out + _round3(tier, seed)
+    return out + _round3(tier, seed) + _round3b(tier, seed)
 
 
 REQUIRED = [
@@ -1055,7 +1236,8 @@ REQUIRED = [
 # fixed positions of every history of the family (the kind of input, the first calls), or inside
 # detect_batch=3 configurations (no bootstrap, hence no random draw anywhere in the history).
 FAMILY_TAGS = ["containers", "dtypes", "shapes", "scale-level", "scale-tiny", "large", "identity", "significance",
-               "subsets", "set_reference", "asymmetric", "multi"]
+               "subsets", "set_reference", "asymmetric", "multi",
+               "scale-nano", "scale-negbig", "userfn", "defaults", "long"]
 REQUIRED += ["fam:%s:updates" % t for t in FAMILY_TAGS]
 REQUIRED += ["fam:%s:drifts_detect_batch3" % t for t in FAMILY_TAGS if t not in ("identity", "subsets")]
 REQUIRED += [
@@ -1073,8 +1255,19 @@ REQUIRED += [
     "multi_calls_while_another_detector_is_in_use",
     "multi_t_quantile_same_dof_as_other_detector_with_other_significance",
 ]
+# round 3b (all incremented inside detect_batch=3 configurations or at every update of a family)
+REQUIRED += [
+    "count_function_steps", "count_function_distance_above_any_normalised_bound",
+    "count_function_returning_numpy_integer",
+    "epoch_of_ge12_batches_detect_batch3", "threshold_from_ge10_epsilons_detect_batch3",
+    "fourth_or_later_drift_of_a_history_detect_batch3",
+    "drift_at_first_opportunity_of_a_later_epoch_detect_batch3",
+]
+REQUIRED += ["defaults:%s(%s)" % (SYSTEMS[s].det_cls.__name__, ",".join(sorted(g))) for s, _, g in DEFAULTS_CONFIGS]
 
-TIME_BUDGET = {"quick": 1500, "thorough": 3600}
+# wall-clock safety nets sized for a heavily shared machine (load 150-300 while this was built: quick took ~15 min,
+# thorough hours); on an idle 16-core machine quick needs about a minute
+TIME_BUDGET = {"quick": 3000, "thorough": 28800}
 
 
 def _describe_families(tier):
@@ -1110,6 +1303,26 @@ def _describe_families(tier):
         "asymmetric": {"what": "user function for which f(reference, test) != f(test, reference); symmetry is not demanded, the "
                        "argument order reference-then-test is; inside the bootstrap pairs either order is accepted",
                        "bound": "4^%d x 4 configurations" % (4 + d)},
+        "scales (3b)": {"what": "additionally x * 2^-30 (~1e-9, the whole range below 1e-8) and -2^27 (x + 1) (~-1e8, negative)",
+                        "bound": "4^%d x (3 + 1) configurations per scale" % (4 + d)},
+        "userfn": {"functions": ["euclid_counts", "l1_counts (returns a numpy integer)", "cum_counts (depends on the bin order)"],
+                   "what": "user functions of the raw histograms (frequency counts per bin, as documented and as in the "
+                   "library's example): not invariant under rescaling a histogram, unbounded; identity up to a common row "
+                   "multiplicity and the sqrt(2) bound are not demanded for them",
+                   "bound": "5^%d over (lo4, lo9, shift4, shift9, wide9) x %d configurations; the large-batch default history "
+                   "with <= %d deviations x 2" % (4 + d, len(USERFN_CONFIGS), 2 + d)},
+        "defaults": {"constructor calls": ["%s(%s)" % (SYSTEMS[s].det_cls.__name__, ", ".join("%s=%r" % kv for kv in sorted(g.items())))
+                                           for s, _, g in DEFAULTS_CONFIGS],
+                     "what": "keyword arguments that are not passed must take the documented defaults (detect_batch 1, 'H' / "
+                     "'KL', 'tstat', 0.05, 5 subsets)", "bound": "5^%d each" % (4 + d)},
+        "long": {"menu": names("long2"), "configurations": [[s, dk, p["detect_batch"], p["statistic"], p["significance"],
+                                                           p["divergence"]] for s, _, dk, p in LONG_CONFIGS],
+                 "what": "default histories of 24 updates (6..12 rows each; the reference grows to > 100 rows, 2..14 bins): a calm "
+                 "epoch of 13 batches ending in a drift, two drifts at the first opportunity of their epochs, a fourth drift, "
+                 "one more batch (for the detect_batch=3 configuration they were searched for); the same histories under "
+                 "detect_batch 1 / 2 (up to 12 drifts, drift reports on consecutive calls)",
+                 "bound": "every history with <= 1 position replaced by one of %s%s"
+                 % (LONG_MENU, "; <= 2 positions for configurations %s" % (LONG_K2_THOROUGH,) if d else "")},
         "multi": {"detectors": {k: [[s, p["detect_batch"], p["statistic"], p["significance"], p["divergence"]] for s, p in v]
                                 for k, v in MULTI_GROUPS.items()},
                   "what": "three detectors with different parameters alive in one state, every event is one call on one of them",
